@@ -99,17 +99,10 @@ claim('C19',
       "mpz_urandomm, mpz_rrandomb, mpn_randomb/rrandom, mpf_urandomb, gmp_randinit_set, seeding reproducibility or the statistical clauses. "
       "Termination of rejection loops is not proved.")
 
-for p, why in (
-    ('C06', 'not yet implemented in this session'),
-    ('C07', 'not yet implemented in this session'),
-    ('C08', 'not yet implemented in this session'),
-    ('C09', 'not yet implemented in this session'),
-    ('C13', 'not yet implemented in this session'),
-    ('C17', 'not yet implemented in this session'),
-    ('C18', 'not yet implemented in this session'),
-    ('C19', 'not yet implemented in this session'),
-):
-    na(p, why)
+na('C07', 'no unit built in this round: the in-family slice is only glue (sign/zero/range handling of mpz_gcd, lcm, invert, gcdext over ASSUMED mpn_gcd/gcdext kernels); Lehmer/HGCD/Jacobi need mathematical integers that CBMC cannot express (DESIGN 6 C07, 11.4)')
+na('C08', 'no unit built in this round: only argument-handling glue of mpz_powm/pow_ui over ASSUMED REDC/powm kernels would be in reach (DESIGN 6 C08, 11.4)')
+na('C09', 'core slice attempted and undecided: the modexact identity behind the perfect-square residue filters did not come back from kissat in 10 min per divisor, the whole-function form in 30 min (DESIGN 11.3); Newton/Zimmermann root iterations are out of reach')
+na('C13', 'no unit built in this round: the in-family slice (mpf format invariant and memory safety of mpf_add/sub/mul/div, exact mpf functions) was not reached; the 2^(2-p) error bound is a statement over reals that no contract here expresses (DESIGN 6 C13, 11.4)')
 na('C14', 'CBMC has no x86-64 assembly front end, so "assembly kernel == C kernel" is not a contract obligation for any .asm/.as file; fat binary and --enable-* build variants are configurations, not functions under contract (DESIGN.md section 6 C14)')
 na('C16', 'n!, binomials, Fibonacci/Lucas and primality are defined by unbounded products/recurrences and number theory; CBMC has no mathematical integers or induction over them, so no contract within reach expresses the property (DESIGN.md section 6 C16)')
 na('C20', "CBMC's C++ front end cannot parse mpirxx.h (templates, libstdc++ headers); no deductive C++ verifier is installed (DESIGN.md section 6 C20)")
